@@ -89,6 +89,11 @@ def _case(nodes, rows, extra=None):
 def _wrap_reach(orig):
     def get_reachable_set_from(self, nodes):
         site = mon.caller_site(2)
+        # the real function must receive the caller's own argument object
+        # (its behaviour may depend on the container type); only one-shot
+        # iterators are materialised, because the monitor has to read them too
+        if hasattr(nodes, '__next__'):
+            nodes = list(nodes)
         try:
             X = list(nodes)
             V, rows = _rows_of(self)
@@ -97,7 +102,7 @@ def _wrap_reach(orig):
         except Exception:
             return orig(self, nodes)
         try:
-            res = orig(self, X)
+            res = orig(self, nodes)
         except Exception as e:
             if all(x in idx for x in X):
                 LOG.hit('c13.get_reachable_set_from', site)
@@ -131,6 +136,16 @@ def _wrap_reach(orig):
             bad = 'reachable set differs'
         if not bad and _snap(self) != before:
             bad = 'receiver changed'
+        try:
+            if list(nodes) != X and set(nodes) != set(X):
+                LOG.violation('c13.argument', PROP + '-diag',
+                              _case(V, rows, {'X': [repr(x) for x in X]}),
+                              sorted(map(repr, nodes)),
+                              sorted(map(repr, X)),
+                              note='the node collection passed by the caller '
+                                   'was modified')
+        except Exception:
+            pass
         if xm and exp != (1 << len(V)) - 1 and exp != xm:
             LOG.sig['reach:proper'] += 1
             LOG.mark_nontrivial(('reach', tuple(rows),
@@ -179,6 +194,8 @@ def _wrap_reversed(orig):
 def _wrap_subgraph(orig):
     def get_subgraph(self, nodes):
         site = mon.caller_site(2)
+        if hasattr(nodes, '__next__'):
+            nodes = list(nodes)
         try:
             X = list(nodes)
             V, rows = _rows_of(self)
@@ -186,7 +203,7 @@ def _wrap_subgraph(orig):
             before = _snap(self)
         except Exception:
             return orig(self, nodes)
-        res = orig(self, X)
+        res = orig(self, nodes)
         LOG.hit('c13.get_subgraph', site)
         LOG.sig['site:get_subgraph:' + site] += 1
         xm = 0
@@ -320,11 +337,16 @@ def drive(rows, order, namer, style, subsets, foreign=False):
     try:
         for xm in subsets:
             X = [names[i] for i in range(n) if xm >> i & 1]
-            G.get_reachable_set_from(X if xm % 2 else set(X))
+            kind = (xm + len(rows[0:1]) + n) % 5
+            G.get_reachable_set_from(
+                [X, set(X), frozenset(X), tuple(X),
+                 (x for x in X)][kind])
             Y = list(X)
             if foreign:
                 Y.append('__not_a_node__')
-            G.get_subgraph(Y if xm % 3 else set(Y))
+            G.get_subgraph(
+                [Y, set(Y), frozenset(Y), dict.fromkeys(Y).keys(),
+                 (y for y in Y)][(kind + 1) % 5])
         G.get_reversed_graph()
         G.clone()
         if n:
